@@ -284,9 +284,21 @@ class Rewriter:
             targs = text[lt + 1:gt].strip()
             close = match_brace(text, k)
             inner = text[k + 1:close].strip()
-            call = '%s_T(%s%s)' % (m.group(1), targs, (', ' + inner) if inner else '')
-            text = text[:m.start()] + call + text[close + 1:]
-            pos = m.start() + len(m.group(1)) + 3
+            # a member template called on an object:  obj->f<T>(a) / obj.f<T>(a)  ->  f_T(T, obj, a)
+            start = m.start()
+            objarg = ''
+            mm = re.search(r'(->|\.)\s*$', text[:start])
+            if mm:
+                ostart = postfix_start(text, mm.start())
+                if ostart < mm.start():
+                    obj = text[ostart:mm.start()]
+                    if mm.group(1) == '.' and obj not in self.refs and not obj.endswith(')'):
+                        obj = '&' + obj
+                    objarg = ', ' + obj
+                    start = ostart
+            call = '%s_T(%s%s%s)' % (m.group(1), targs, objarg, (', ' + inner) if inner else '')
+            text = text[:start] + call + text[close + 1:]
+            pos = start + len(m.group(1)) + 3
             self._fire('tcall')
 
     def _while_decl(self, text):
